@@ -582,7 +582,8 @@ class TriggerHandler:
             # the configuration says now)
             return
         # (asked first: it is a call, which is traced - by us, and we may leave the thread by ourselves right there)
-        pending = self._callbacks.is_set
+        in_event = self.__in_trace_event()
+        pending = self._callbacks.is_set or in_event
         if hasattr(self.__start_thread, 'old') and sys.gettrace() == self.trace_call and not pending:
             sys.settrace(self.__put_back(self.__start_thread.old))
             del self.__start_thread.old
@@ -594,7 +595,19 @@ class TriggerHandler:
         if self.__thread_hook() == self.trace_call:
             threading.settrace(self.__put_back(self.__old_thread_trace, for_new_threads=True))
         self.__release_running_calls()
-        self.__release_locals(None)
+        if not in_event:
+            self.__release_locals(None)
+
+    def __in_trace_event(self) -> bool:
+        # is the calling thread inside one of our trace events (a signal handler, a plugin calling shutdown)? The event
+        # may still register work, and python writes the f_locals mapping of its frame back when it returns
+        frame = sys._getframe(1)
+        code = TriggerHandler.trace_call.__code__
+        while frame is not None:
+            if frame.f_code is code and frame.f_locals.get('self') is self:
+                return True
+            frame = frame.f_back
+        return False
 
     def __release_running_calls(self):
         """Take our function off the calls in progress (see __trace_running_calls), unless we wait for their end."""
